@@ -330,7 +330,15 @@ impl<'a> Gen<'a> {
             // assertion carrying its own assertions (metadata / salt-like)
             let n = self.rng.range(1, 2);
             let meta = (0..n).map(|_| M::Assertion(Box::new(self.part(0)), Box::new(self.part(0)))).collect();
-            M::Node(Box::new(a), meta)
+            let once = M::Node(Box::new(a), meta);
+            if self.cfg.node_subject && self.rng.chance(1, 3) {
+                // ... decorated a second time WITHOUT wrapping (a node whose subject is a node whose subject is
+                // the assertion): only decoding produces this shape
+                let meta2 = vec![M::Assertion(Box::new(self.part(0)), Box::new(self.part(0)))];
+                M::Node(Box::new(once), meta2)
+            } else {
+                once
+            }
         } else {
             a
         }
@@ -688,6 +696,34 @@ pub fn obscure_random(e: &Envelope, rng: &mut Rng, rounds: usize, key: &Symmetri
         cur = cur.elide_removing_set_with_action(&set, &action(act, key));
     }
     cur
+}
+
+/// An envelope holding an assertion that is decorated twice WITHOUT wrapping -- a node whose subject is a node
+/// whose subject is the assertion -- with the bare assertion present (`core = None`) or obscured by `core`.
+/// Built the two ways the public API allows: by decoding, and by obscure -> add_assertion -> un-obscure.
+/// Returns (envelope, the twice-decorated assertion element).
+pub fn twice_decorated(rng: &mut Rng, core: Option<Act>, key: &SymmetricKey) -> (Envelope, Envelope) {
+    let n = rng.below(1000) as u64;
+    let bare = M::Assertion(Box::new(M::Leaf(Item::Text("knows".into()))), Box::new(M::Leaf(Item::Text(format!("Bob-{}", n)))));
+    let once = M::Node(Box::new(bare.clone()), vec![M::Assertion(Box::new(M::Known(rng.below(20) as u64)), Box::new(M::Leaf(Item::UInt(n))))]);
+    let twice = M::Node(Box::new(once.clone()), vec![M::Assertion(Box::new(M::Leaf(Item::Text("note".into()))), Box::new(M::Leaf(Item::UInt(n + 1))))]);
+    let element = if rng.chance(1, 2) {
+        Envelope::try_from_cbor_data(twice.bytes()).expect("twice decorated assertion decodes")
+    } else {
+        // compress the once-decorated assertion, decorate the placeholder, uncompress the subject again
+        let once_e = build(&once, Route::Plain, rng);
+        once_e.compress().unwrap().add_assertion("note", n + 1).uncompress_subject().unwrap()
+    };
+    let element = match core {
+        None => element,
+        Some(act) => {
+            let d = bare.tree().digest;
+            element.elide_removing_set_with_action(&digest_set(&[d]), &action(act, key))
+        }
+    };
+    let holder = Envelope::new(format!("holder-{}", n)).add_assertion("plain", n);
+    let e = holder.add_assertion_envelope(element.clone()).expect("a twice decorated assertion is a valid assertion element");
+    (e, element)
 }
 
 pub fn hexs(b: &[u8]) -> String {
